@@ -50,6 +50,16 @@ WORKERS = {"quick": 1, "thorough": 14}
 
 def gen_cases(ctx):
     rng = ctx.rng
+    from . import _env_workload as E
+    for i in range(ctx.scale(80, 12000)):
+        # the filters as met inside the environments: what the env reports as available is the
+        # filter's answer (same operations, same order)
+        c = E.gen_multi_case(rng)
+        if i % 3 == 0:
+            c["kind"] = "single_env_filter"
+            c["instance"] = gen.gen_instance(rng, rng.choice(["irregular", "classic", "recirc"]),
+                                             max_jobs=rng.choice([9, 10, 12]), max_machines=rng.choice([2, 3]))
+        yield c
     for i in range(ctx.scale(3000, 720000)):
         c = gen_history_case(rng, max_jobs=rng.choice([2, 3, 4, 5, 6]),
                              max_machines=rng.choice([2, 3, 4, 5]))
@@ -141,7 +151,66 @@ def check_filter(ctx, run, names, spec_form, L_ids, pruned_flag):
                 ctx.violation("c07_dominated_zero_duration_result", w)
 
 
+def judge_env_state(ctx, run, info, w):
+    d, r = run.d, run.r
+    avail = d.available_operations()
+    ctx.count("available_ops_checks")
+    raw = d.raw_ready_operations()
+    errs = generic_obligations(raw, avail) if raw else []
+    if errs:
+        ctx.violation("c07_available_not_sound", dict(w, errors=errs, history=list(r.history)))
+    want = run.ref_available()
+    if want is not None and [o.operation_id for o in avail] != want:
+        ctx.violation("c07_available_differs_from_filter_of_ready",
+                      dict(w, got=[o.operation_id for o in avail], want=want, history=list(r.history)))
+    if info is not None:
+        ctx.count("env_info_available_operations_checked")
+        got = [o.operation_id for o in info["available_operations"]]
+        # (the same operations; the order in which the env lists them is not stated anywhere)
+        if sorted(got) != sorted(o.operation_id for o in avail):
+            ctx.violation("c07_env_reports_other_available_operations_than_the_filter_returned",
+                          dict(w, reported=got, filter_returned=[o.operation_id for o in avail],
+                               history=list(r.history)))
+
+
+def run_env_case(ctx, case):
+    from . import _env_workload as E
+    if case["kind"] == "multi_env_filter":
+        for event, run, info in E.multi_env_episodes(ctx, case):
+            judge_env_state(ctx, run, info, {"env": "multi", "filter": run.filter_names,
+                                             "constructor_filter": case["constructor_filter"],
+                                             "setter": case.get("setter")})
+        ctx.note_case(case, True, fingerprint="multi:%s:%s:%s" % (case["seed"], case["constructor_filter"],
+                                                                  case.get("setter")))
+        return
+    # single-instance environment on an instance with many jobs
+    from job_shop_lib.dispatching import DispatcherObserverConfig
+    from job_shop_lib.graphs import build_agent_task_graph
+    from job_shop_lib.reinforcement_learning import SingleJobShopGraphEnv
+    rng = random.Random(case["seed"])
+    instance = gen.build(case["instance"])
+    name = case["constructor_filter"]
+    spec = E._spec(name)
+    kw = {} if name == "default" else {"ready_operations_filter": gen.make_filter(spec)}
+    env = SingleJobShopGraphEnv(build_agent_task_graph(instance), [DispatcherObserverConfig("is_ready")], **kw)
+    for ep in range(2):
+        env.reset()
+        run = Run(case["instance"], spec, dispatcher=env.dispatcher, instance=instance)
+        done = False
+        while not done:
+            avail = env.dispatcher.available_operations()
+            op = rng.choice(avail)
+            m = rng.choice(op.machines)
+            _, _, done, _, info = env.step((op.job_id, m))
+            run.r.apply(op.operation_id, m)
+            ctx.count("single_env_steps")
+            judge_env_state(ctx, run, info, {"env": "single", "filter": run.filter_names})
+    ctx.note_case(case, True, fingerprint="single-env:%s" % case["seed"])
+
+
 def run_case(ctx, case):
+    if case.get("kind") in ("multi_env_filter", "single_env_filter"):
+        return run_env_case(ctx, case)
     rng = random.Random(case["seed"])
     run = Run(case["instance"], case.get("filter"))
     d, r = run.d, run.r
